@@ -1,8 +1,398 @@
-import PypyrModel.Format
-import PypyrModel.FormatSpec
+/-
+  C08 — formatting expressions resolve by the documented substitution/recursion rules.
+
+  Property theorems only (helper lemmas: Props/Lemmas/C08_Parse.lean, C08_Model.lean).
+  Model: PypyrModel/FmtParse.lean (CPython's parser), Format.lean (code-shaped model of
+  `_format_keep_type` / `_get_formatted_iterable`), FormatSpec.lean (`Spec`, the documented rules).
+
+  Every statement is for all strings / contexts / fuel. Strings are quantified in one of two ways:
+  * through their parse (`parseTuples s = (ts, none)`): any string CPython's parser accepts;
+  * through the grammar (`Chunk`): literal text, `{{`, `}}`, `{name!conv:spec}` in any number and
+    order — `parse_grammar` shows each such string parses to exactly the tuples of its chunks.
+  Names are qualified (`Format.fmtIter`) because the basic model `Pypyr.fmtIter` lives in the parent namespace.
+-/
+import Props.Lemmas.C08_Parse
+import Props.Lemmas.C08_Model
+import Props.Lemmas.C08_Aux
+
 namespace Pypyr.C08
 open Pypyr.Format
+
+/-! ## the grammar -/
+
+/-- Every string of the grammar (any number of literal, `{{`, `}}` and expression chunks, field names
+    with dotted/indexed paths, conversions, brace-free specs) parses without error to the tuples its
+    chunks describe; in particular `{{` and `}}` never start a field. -/
+theorem parse_grammar (chunks : List Chunk) (h : ∀ c ∈ chunks, c.WellFormed) :
+    parseTuples (render chunks) = (tuplesOf chunks, none) :=
+  parse_render chunks h
+
+example : parseTuples "a{{b}} {x.y[0]!r:>5}{z[k:v]}".toList =
+    ([⟨"a{".toList, none⟩, ⟨"b}".toList, none⟩, ⟨" ".toList, some ⟨"x.y[0]".toList, ">5".toList, some 'r'⟩⟩,
+      ⟨[], some ⟨"z[k:v]".toList, [], none⟩⟩], none) := by rfl
+
+/-! ## refinement: the code-shaped model computes the documented result -/
+
+/-- `_format_keep_type` = `Spec.format` on every string that parses and whose fields are named
+    references (not empty / all-digit) with specs free of nested fields — for every context, fuel,
+    recursion flag. -/
+theorem fmtKeepType_refines_spec (fuel : Nat) (ctx : Ctx) (isRec : Bool) (s : List Char) (ts : List Tup)
+    (hp : parseTuples s = (ts, none)) (hg : GoodTups ts) :
+    Format.fmtKeepType (fuel + 1) ctx isRec s =
+      Spec.format (fun r v => Format.fmtIter fuel ctx r v) ctx isRec (parts ts) := by
+  unfold Format.fmtKeepType
+  exact keepType_refines_spec _ ctx isRec s ts hp hg
+
+/-- The same over the grammar: no parse hypothesis left. -/
+theorem fmtKeepType_refines_spec_grammar (fuel : Nat) (ctx : Ctx) (isRec : Bool) (chunks : List Chunk)
+    (hw : ∀ c ∈ chunks, c.WellFormed) (hg : GoodTups (tuplesOf chunks)) :
+    Format.fmtKeepType (fuel + 1) ctx isRec (render chunks) =
+      Spec.format (fun r v => Format.fmtIter fuel ctx r v) ctx isRec (parts (tuplesOf chunks)) :=
+  fmtKeepType_refines_spec fuel ctx isRec _ _ (parse_render chunks hw) hg
+
+/-- … and at the API: `Context.get_formatted_value(s)` for a str `s`. -/
+theorem fmtVal_str_refines_spec (fuel : Nat) (ctx : Ctx) (s : String) (ts : List Tup)
+    (hp : parseTuples s.toList = (ts, none)) (hg : GoodTups ts) :
+    Format.fmtVal (fuel + 2) ctx (.str s) =
+      Spec.format (fun r v => Format.fmtIter fuel ctx r v) ctx false (parts ts) := by
+  unfold Format.fmtVal
+  rw [Format.fmtIter]
+  exact fmtKeepType_refines_spec fuel ctx false _ ts hp hg
+
+def exCtx : Ctx :=
+  [("a", .str "x{b}"), ("b", .int 5), ("l", .list [.int 1, .str "{b}"]), ("s", .sic "{raw}"),
+   ("n", .dict [(.str "k", .str "{a}")])]
+
+example : parseTuples "-{a}-{l[1]:rf}|{b:>4}".toList =
+      ([⟨['-'], some ⟨['a'], [], none⟩⟩, ⟨['-'], some ⟨"l[1]".toList, ['r', 'f'], none⟩⟩,
+        ⟨['|'], some ⟨['b'], ['>', '4'], none⟩⟩], none) ∧
+    GoodTups [⟨['-'], some ⟨['a'], [], none⟩⟩, ⟨['-'], some ⟨"l[1]".toList, ['r', 'f'], none⟩⟩,
+        ⟨['|'], some ⟨['b'], ['>', '4'], none⟩⟩] ∧
+    Format.fmtVal 8 exCtx (.str "-{a}-{l[1]:rf}|{b:>4}") = .ok (.str "-x{b}-5|   5") := by
+  refine ⟨by rfl, goodTups_of_check _ (by rfl), by rfl⟩
+
+/-- On `specInDomain` the model's `format(v, spec)` never answers "outside the modelled domain". -/
+theorem formatField_in_domain (v : Val) (spec : List Char) (h : specInDomain v spec = true) (e : Exc)
+    (he : formatField v spec = .error e) : e.name ≠ "OutOfDomain" := by
+  unfold specInDomain at h
+  rw [he] at h
+  simpa using h
+
+example : specInDomain (.int (-5)) "x=+6".toList = true ∧ formatField (.int (-5)) "x=+6".toList = .ok "-xxxx5".toList ∧
+    specInDomain (.str "ab") "^7".toList = true ∧ formatField (.str "ab") "^7".toList = .ok "  ab   ".toList ∧
+    specInDomain (.int 5) ".2f".toList = false := by
+  refine ⟨by rfl, by rfl, by rfl, by rfl, by rfl⟩
+
+/-! ## a string that is exactly one expression -/
+
+/-- `'{name}'` yields the referenced object itself, recursively formatted — whatever its kind
+    (no cast to str). -/
+theorem single_expression_keeps_type (fuel : Nat) (ctx : Ctx) (name : List Char)
+    (hn : isFieldName false name = true) (hnamed : Named name) :
+    Format.fmtKeepType (fuel + 1) ctx false ('{' :: (name ++ ['}'])) =
+      (match getField ctx name with
+       | .error e => .error e
+       | .ok obj => Format.fmtIter fuel ctx false obj) := by
+  have hw : ∀ c ∈ [Chunk.expr ⟨name, [], none⟩], c.WellFormed := by
+    intro c hc; simp at hc; subst hc; exact ⟨hn, by intro c hc; simp at hc⟩
+  have hg : GoodTups (tuplesOf [Chunk.expr ⟨name, [], none⟩]) := by
+    intro t ht f hf
+    simp [tuplesOf, tuplesFrom] at ht; subst ht; simp at hf; subst hf
+    exact ⟨hnamed, by intro c hc; simp at hc⟩
+  have := fmtKeepType_refines_spec_grammar fuel ctx false _ hw hg
+  simp only [render, Chunk.render, FieldT.text, FieldT.tail, List.append_nil, if_true, List.nil_append] at this
+  rw [this]
+  simp only [tuplesOf, tuplesFrom, List.nil_append, parts, Tup.parts, if_true, List.append_nil,
+    Spec.format, Spec.formatSingle, Spec.fieldObj, Spec.isRf, Spec.isFf, Spec.specBody, bind, Except.bind,
+    pure, Except.pure, convertField]
+  cases getField ctx name with
+  | error e => rfl
+  | ok obj =>
+    simp
+    cases Format.fmtIter fuel ctx false obj <;> rfl
+
+/-- The type is preserved: a referenced int / None / bool / float / opaque object comes back as it is,
+    a referenced list as a list of formatted members, … -/
+theorem single_expression_scalar (fuel : Nat) (ctx : Ctx) (k : String) (v : Val)
+    (hn : isFieldName false k.toList = true) (hnamed : Named k.toList)
+    (hk : getField ctx k.toList = .ok v)
+    (hv : (∃ i, v = .int i) ∨ v = .none ∨ (∃ b, v = .bool b) ∨ (∃ n d, v = .flt n d) ∨ (∃ i, v = .obj i)) :
+    Format.fmtKeepType (fuel + 2) ctx false ('{' :: (k.toList ++ ['}'])) = .ok v := by
+  rw [single_expression_keeps_type (fuel + 1) ctx _ hn hnamed, hk]
+  rcases hv with ⟨i, rfl⟩ | rfl | ⟨b, rfl⟩ | ⟨n, d, rfl⟩ | ⟨i, rfl⟩ <;> simp [Format.fmtIter]
+
+example : Format.fmtVal 8 exCtx (.str "{l}") = .ok (.list [.int 1, .int 5]) ∧
+    Format.fmtVal 8 exCtx (.str "{b}") = .ok (.int 5) ∧
+    Format.fmtVal 9 exCtx (.str "{n}") = .ok (.dict [(.str "k", .str "x5")]) := by
+  refine ⟨by rfl, by rfl, by rfl⟩
+
+/-! ## strings mixing text and expressions -/
+
+/-- **≥ 2 parts (or none) ⇒ a str, each expression formatted one level deep**: the result is Python's own
+    `str.format` of the parts (`Spec.pyFormat`: `format(convert(lookup), spec)` concatenated with the
+    literals); whatever braces the referenced strings contain stay as they are, because nothing referenced
+    is formatted again (`pyFormat` has no access to the recursive formatter). -/
+theorem mixed_is_flat_str (fuel : Nat) (ctx : Ctx) (s : List Char) (ts : List Tup)
+    (hp : parseTuples s = (ts, none)) (hg : GoodTups ts)
+    (hlen : (parts ts).length ≠ 1) (hnorf : ∀ f, Part.fld f ∈ parts ts → Spec.isRf f.spec = false) :
+    Format.fmtKeepType (fuel + 1) ctx false s = Spec.pyFormat ctx (parts ts) ∧
+    (∀ v, Format.fmtKeepType (fuel + 1) ctx false s = .ok v → ∃ t, v = .str t) := by
+  have hfmt : Format.fmtKeepType (fuel + 1) ctx false s = Spec.pyFormat ctx (parts ts) := by
+    rw [fmtKeepType_refines_spec fuel ctx false s ts hp hg]
+    unfold Spec.pyFormat
+    have hflat : ∀ deep, Spec.format deep ctx false (parts ts) = Spec.formatFlat deep ctx false (parts ts) := by
+      intro deep
+      match hps : parts ts with
+      | [] => rfl
+      | [p] => rw [hps] at hlen; simp at hlen
+      | p :: q :: rest => cases p <;> rfl
+    rw [hflat]
+    simp only [Spec.formatFlat]
+    rw [resolve_flat _ (fun _ v => pure v) ctx _ hnorf]
+  refine ⟨hfmt, ?_⟩
+  intro v hv
+  rw [hfmt] at hv
+  simp only [Spec.pyFormat, Spec.formatFlat, bind, Except.bind, pure, Except.pure] at hv
+  split at hv
+  · cases hv
+  · split at hv
+    · cases hv
+    · cases hv; exact ⟨_, rfl⟩
+
+example : Format.fmtVal 8 exCtx (.str "<{a}> {b:>3}") = .ok (.str "<x{b}>   5") := by rfl
+
+/-! ## rf / ff -/
+
+/-- `:rf` — the referenced object is formatted recursively (`deep true`) before conversion and
+    `format()`, in a single expression and in a mixed string alike; so is every expression met inside a
+    recursive format unless it says `:ff` (`isRec = true`: the flag the recursion hands down). -/
+theorem rf_recurses (deep : Bool → Val → Except Exc Val) (ctx : Ctx) (isRec : Bool) (f : FieldT)
+    (h : Spec.isRf f.spec = true ∨ (isRec = true ∧ Spec.isFf f.spec = false)) :
+    Spec.fieldObj deep ctx isRec f =
+      (match getField ctx f.name with
+       | .error e => .error e
+       | .ok obj => match deep true obj with
+         | .error e => .error e
+         | .ok o => convertField o f.conv) := by
+  have hc : (Spec.isRf f.spec || (isRec && !Spec.isFf f.spec)) = true := by
+    rcases h with h | ⟨h1, h2⟩ <;> simp [*]
+  simp only [Spec.fieldObj, hc, bind, Except.bind, pure, Except.pure]
+  cases getField ctx f.name with
+  | error e => rfl
+  | ok obj => simp only [if_true]; cases deep true obj <;> rfl
+
+/-- `'{name:rf}'`: the referenced object, formatted with the recursive flag on (so that mixed strings
+    inside it recurse too), type kept. -/
+theorem rf_single (fuel : Nat) (ctx : Ctx) (isRec : Bool) (name : List Char)
+    (hn : isFieldName false name = true) (hnamed : Named name) :
+    Format.fmtKeepType (fuel + 1) ctx isRec ('{' :: (name ++ [':', 'r', 'f', '}'])) =
+      (match getField ctx name with
+       | .error e => .error e
+       | .ok obj => Format.fmtIter fuel ctx true obj) := by
+  have hw : ∀ c ∈ [Chunk.expr ⟨name, ['r', 'f'], none⟩], c.WellFormed := by
+    intro c hc; simp at hc; subst hc; exact ⟨hn, by intro c hc; simp at hc; rcases hc with rfl | rfl <;> decide⟩
+  have hg : GoodTups (tuplesOf [Chunk.expr ⟨name, ['r', 'f'], none⟩]) := by
+    intro t ht f hf
+    simp [tuplesOf, tuplesFrom] at ht; subst ht; simp at hf; subst hf
+    exact ⟨hnamed, by intro c hc; simp at hc; rcases hc with rfl | rfl <;> decide⟩
+  have := fmtKeepType_refines_spec_grammar fuel ctx isRec _ hw hg
+  simp only [render, Chunk.render, FieldT.text, FieldT.tail, List.append_nil, List.nil_append] at this
+  have e : (if (['r', 'f'] : List Char) = [] then [] else ':' :: ['r', 'f']) ++ ['}'] = [':', 'r', 'f', '}'] := by decide
+  rw [e] at this
+  rw [this]
+  simp only [tuplesOf, tuplesFrom, List.nil_append, parts, Tup.parts, if_true, List.append_nil,
+    Spec.format, Spec.formatSingle, Spec.fieldObj, bind, Except.bind, pure, Except.pure, convertField]
+  have h1 : Spec.isRf ['r', 'f'] = true := by decide
+  have h2 : Spec.specBody ['r', 'f'] = [] := by decide
+  simp only [h1, h2, Bool.true_or, if_true]
+  cases hgf : getField ctx name with
+  | error e => rfl
+  | ok obj => simp only []; cases Format.fmtIter fuel ctx true obj <;> simp
+
+/-- `:ff` — the referenced object is never formatted, not even inside a recursive format. -/
+theorem ff_is_flat (deep : Bool → Val → Except Exc Val) (ctx : Ctx) (isRec : Bool) (f : FieldT)
+    (h : Spec.isFf f.spec = true) :
+    Spec.fieldObj deep ctx isRec f =
+      (match getField ctx f.name with
+       | .error e => .error e
+       | .ok obj => convertField obj f.conv) := by
+  have hrf : Spec.isRf f.spec = false := by
+    unfold Spec.isRf Spec.isFf at *
+    simp only [decide_eq_true_eq] at h
+    simp [h, rf_ne_ff.symm]
+  simp only [Spec.fieldObj, h, hrf, bind, Except.bind, pure, Except.pure]
+  cases getField ctx f.name <;> simp
+
+/-- `'{name:ff}'` returns the referenced object itself, unformatted, for a single expression too. -/
+theorem ff_single (fuel : Nat) (ctx : Ctx) (isRec : Bool) (name : List Char)
+    (hn : isFieldName false name = true) (hnamed : Named name) :
+    Format.fmtKeepType (fuel + 1) ctx isRec ('{' :: (name ++ [':', 'f', 'f', '}'])) = getField ctx name := by
+  have hw : ∀ c ∈ [Chunk.expr ⟨name, ['f', 'f'], none⟩], c.WellFormed := by
+    intro c hc; simp at hc; subst hc; exact ⟨hn, by intro c hc; simp at hc; rcases hc with rfl | rfl <;> decide⟩
+  have hg : GoodTups (tuplesOf [Chunk.expr ⟨name, ['f', 'f'], none⟩]) := by
+    intro t ht f hf
+    simp [tuplesOf, tuplesFrom] at ht; subst ht; simp at hf; subst hf
+    exact ⟨hnamed, by intro c hc; simp at hc; rcases hc with rfl | rfl <;> decide⟩
+  have := fmtKeepType_refines_spec_grammar fuel ctx isRec _ hw hg
+  simp only [render, Chunk.render, FieldT.text, FieldT.tail, List.append_nil, List.nil_append] at this
+  have e : (if (['f', 'f'] : List Char) = [] then [] else ':' :: ['f', 'f']) ++ ['}'] = [':', 'f', 'f', '}'] := by decide
+  rw [e] at this
+  rw [this]
+  simp only [tuplesOf, tuplesFrom, List.nil_append, parts, Tup.parts, if_true, List.append_nil,
+    Spec.format, Spec.formatSingle, Spec.fieldObj, bind, Except.bind, pure, Except.pure, convertField]
+  have h0 : Spec.isRf ['f', 'f'] = false := by decide
+  have h1 : Spec.isFf ['f', 'f'] = true := by decide
+  have h2 : Spec.specBody ['f', 'f'] = [] := by decide
+  simp only [h0, h1, h2, Bool.false_or, Bool.true_or, Bool.not_true, Bool.and_false, if_true]
+  cases getField ctx name <;> simp
+
+example : Format.fmtVal 8 exCtx (.str "{n:rf}") = .ok (.dict [(.str "k", .str "x5")]) ∧
+    Format.fmtVal 8 exCtx (.str "{n:ff}") = .ok (.dict [(.str "k", .str "{a}")]) ∧
+    Format.fmtVal 8 exCtx (.str "v={a:rf}") = .ok (.str "v=x5") ∧
+    Format.fmtVal 8 exCtx (.str "v={a:ff}") = .ok (.str "v=x{b}") := by
+  refine ⟨by rfl, by rfl, by rfl, by rfl⟩
+
+/-! ## escapes -/
+
+/-- **Escapes**: a string made of literal text, `{{` and `}}` formats to that text with `{` for `{{`
+    and `}` for `}}` — for every context (so no field is ever started: nothing is looked up), every
+    recursion flag, any fuel ≥ 1. -/
+theorem escapes (fuel : Nat) (ctx : Ctx) (isRec : Bool) (chunks : List Chunk) (h : LiteralOnly chunks) :
+    Format.fmtKeepType (fuel + 1) ctx isRec (render chunks) = .ok (.str (String.ofList (unescape chunks))) := by
+  have hw : ∀ c ∈ chunks, c.WellFormed := by
+    intro c hc
+    rcases h c hc with ⟨cs, rfl, hcs⟩ | rfl | rfl
+    · exact hcs
+    · trivial
+    · trivial
+  have hl := tuplesFrom_literal chunks h [] [] (by intro p hp; simp [parts] at hp)
+  have hg : GoodTups (tuplesOf chunks) := by
+    intro t ht f hf
+    -- a tuple with a field contributes a `.fld` part, but all parts are literals
+    obtain ⟨t', ht'⟩ := hl.1 _ (fld_mem_parts _ t f ht hf)
+    cases ht'
+  rw [fmtKeepType_refines_spec_grammar fuel ctx isRec chunks hw hg]
+  simp only [tuplesOf]
+  rw [format_lits _ _ _ _ hl.1]
+  have := hl.2
+  simp only [parts, litsText, List.nil_append] at this
+  rw [this]
+
+example : Format.fmtVal 3 [] (.str "{{x}} }}{{ a") = .ok (.str "{x} }{ a") := by rfl
+
+/-! ## special tags -/
+
+/-- `!sic` is returned verbatim, braces and all; nothing in it is looked up. -/
 theorem sic_verbatim (fuel : Nat) (ctx : Ctx) (isRec : Bool) (s : String) :
-    fmtIter (fuel + 1) ctx isRec (.sic s) = .ok (.str s) := by
-  unfold fmtIter; rfl
+    Format.fmtIter (fuel + 1) ctx isRec (.sic s) = .ok (.str s) := by
+  unfold Format.fmtIter; rfl
+
+/-- … also when reached through a reference: `'{k}'` with `context[k] = !sic s` gives `s`. -/
+theorem sic_verbatim_through_reference (fuel : Nat) (ctx : Ctx) (k : String) (s : String)
+    (hn : isFieldName false k.toList = true) (hnamed : Named k.toList)
+    (hk : getField ctx k.toList = .ok (.sic s)) :
+    Format.fmtKeepType (fuel + 2) ctx false ('{' :: (k.toList ++ ['}'])) = .ok (.str s) := by
+  rw [single_expression_keeps_type (fuel + 1) ctx _ hn hnamed, hk]
+  exact sic_verbatim fuel ctx false s
+
+/-- `!py` evaluates as Python with the context keys as variables (`evalPy`: names resolve to the raw
+    context values). -/
+theorem py_evaluates (fuel : Nat) (ctx : Ctx) (isRec : Bool) (e : PyExpr) :
+    Format.fmtIter (fuel + 1) ctx isRec (.py e) = evalPy ctx e := by
+  unfold Format.fmtIter; rfl
+
+/-- `!jsonify` yields the JSON text of the *formatted* value (formatted as a fresh top-level call). -/
+theorem jsonify_is_json_of_formatted (fuel : Nat) (ctx : Ctx) (isRec : Bool) (v : Val) :
+    Format.fmtIter (fuel + 1) ctx isRec (.jsonify v) =
+      (match Format.fmtVal fuel ctx v with
+       | .error e => .error e
+       | .ok fv => match jsonDumps fv with
+         | some s => .ok (.str s)
+         | none => .error errNotJson) := by
+  rw [Format.fmtIter]; rfl
+
+example : Format.fmtVal 8 exCtx (.str "{s}") = .ok (.str "{raw}") ∧
+    Format.fmtVal 8 exCtx (.py (.binop .add (.name "b") (.const (.int 1)))) = .ok (.int 6) ∧
+    Format.fmtVal 8 exCtx (.jsonify (.dict [(.str "k", .list [.str "{b}", .str "{a}"])])) =
+      .ok (.str "{\"k\": [5, \"x5\"]}") := by
+  refine ⟨by rfl, by rfl, by rfl⟩
+
+/-! ## a reference to a key that is not in context -/
+
+/-- **Never a partial result.** If formatting a string returns a value at all, then every expression
+    of the string refers (by its first name) to a key that is in the context — equivalently: one
+    missing key anywhere in the string makes the whole call fail, whatever else the string holds
+    (any specs, conversions, nested specs, parse state). For all strings, contexts, fuel, flags. -/
+theorem missing_key_is_error (fuel : Nat) (ctx : Ctx) (isRec : Bool) (s : List Char) (v : Val)
+    (h : Format.fmtKeepType fuel ctx isRec s = .ok v) :
+    ∀ t ∈ (parseTuples s).1, ∀ f, t.field = some f → Named f.name →
+      ∀ k, firstKey f.name = some k → (Ctx.get? ctx k).isSome = true := by
+  cases fuel with
+  | zero => simp [Format.fmtKeepType] at h
+  | succ n =>
+    unfold Format.fmtKeepType keepType at h
+    simp only at h
+    cases hl : ktLoop (fun r v => Format.fmtIter n ctx r v) ctx isRec (parseTuples s).1 (parseTuples s).2 (some 0) [] with
+    | error e => simp [hl] at h
+    | ok es => exact ktLoop_ok_keys _ ctx isRec _ _ _ _ es hl
+
+/-- The error is the key-lookup error when the missing reference is the first expression of the
+    string (only literal text before it): `KeyNotInContextError("<k> not found in the pypyr context.")`. -/
+theorem missing_key_first_field (fuel : Nat) (ctx : Ctx) (isRec : Bool) (s : List Char)
+    (lit : List Char) (f : FieldT) (rest : List Tup) (perr : Option Exc)
+    (hp : parseTuples s = (⟨lit, some f⟩ :: rest, perr)) (hn : Named f.name) (k : String)
+    (hk : firstKey f.name = some k) (hmiss : Ctx.get? ctx k = none)
+    (hascii : f.name.any (fun c => c.toNat ≥ 128) = false) :
+    Format.fmtKeepType (fuel + 1) ctx isRec s = .error (keyNotInContext k) := by
+  unfold Format.fmtKeepType keepType
+  simp only [hp]
+  unfold ktLoop
+  simp only
+  have : ktField (fun r v => Format.fmtIter fuel ctx r v) ctx isRec f (some 0) = .error (keyNotInContext k) := by
+    unfold ktField
+    rw [autoNumber_named _ _ hn]
+    simp only
+    have hg : getField ctx f.name = .error (keyNotInContext k) := by
+      unfold getField
+      rw [hascii]
+      unfold firstKey at hk
+      cases hs : splitField f.name with
+      | error e => simp [hs] at hk
+      | ok r =>
+        obtain ⟨first, accs, err⟩ := r
+        simp only [hs] at hk ⊢
+        cases first with
+        | int n => simp at hk
+        | str kk =>
+          simp only [Option.some.injEq] at hk
+          subst hk
+          simp [getValue, hmiss]
+    rw [hg]
+  rw [this]
+
+/-- … also through recursion: `'{a}'` where `context[a]` is a string with an expression whose key is
+    missing never yields a value. -/
+theorem missing_key_through_reference (fuel : Nat) (ctx : Ctx) (a : String) (s2 : String)
+    (hn : isFieldName false a.toList = true) (hnamed : Named a.toList)
+    (ha : getField ctx a.toList = .ok (.str s2))
+    (t : Tup) (f : FieldT) (ht : t ∈ (parseTuples s2.toList).1) (hf : t.field = some f) (hfn : Named f.name)
+    (k : String) (hk : firstKey f.name = some k) (hmiss : Ctx.get? ctx k = none) (v : Val) :
+    Format.fmtKeepType (fuel + 1) ctx false ('{' :: (a.toList ++ ['}'])) ≠ .ok v := by
+  intro h
+  rw [single_expression_keeps_type fuel ctx _ hn hnamed, ha] at h
+  simp only at h
+  cases fuel with
+  | zero => simp [Format.fmtIter] at h
+  | succ n =>
+    unfold Format.fmtIter at h
+    simp only at h
+    have := missing_key_is_error n ctx false s2.toList v h t ht f hf hfn k hk
+    rw [hmiss] at this
+    simp at this
+
+example : Format.fmtVal 8 exCtx (.str "ok {b} then {zz} and {a}") = .error (keyNotInContext "zz") ∧
+    Format.fmtVal 8 (("r", .str "{zz}") :: exCtx) (.str "{r}") = .error (keyNotInContext "zz") ∧
+    Format.fmtVal 8 exCtx (.str "{zz[0]!r:>{b}}") = .error (keyNotInContext "zz") := by
+  refine ⟨by rfl, by rfl, by rfl⟩
+
 end Pypyr.C08
